@@ -288,6 +288,12 @@ func main() {
 		lp := addL("LP", ty.P(ty.N(ord)), false)
 		lni := addL("LNI", b("int"), false)
 		lu := addL("LU", ty.St(f("A", b("int")), f("b", b("string")), f("c", ty.P(b("int")))), true)
+		// own Equal methods that look at the first field only (value and pointer receiver): a value they cannot tell
+		// from zero ({A: 0, B: "x"}) must still be written into the text
+		leqv := addL("LEqv", ty.St(f("A", b("int")), f("B", b("string"))), false)
+		env.Decls[leqv].Methods = "Ev"
+		leqp := addL("LEqp", ty.St(f("A", b("int")), f("B", ty.Sl(b("int")))), false)
+		env.Decls[leqp].Methods = "Ep"
 		lg := addL("LG", ty.St(f("A", b("int"))), false)
 		lemg := addL("LEmG", ty.St(ty.Field{Name: "LG", Embedded: true, T: ty.N(lg)}, f("N", b("string"))), false)
 		lrn := addL("LRn", b("rune"), false)
@@ -308,6 +314,8 @@ func main() {
 				f("P", ty.N(lp)), f("L", ty.N(lsl)), f("N", ty.P(ty.N(lni))), f("X", ty.N(5)), f("Q", ty.P(ty.N(rec)))),
 			ty.P(ty.St(f("A", ty.N(mark)), f("B", ty.P(ty.N(mark))), f("C", ty.N(b2)))),
 			ty.St(f("G", ty.N(lg)), f("P", ty.P(ty.N(lg))), f("E", ty.N(lemg)), f("Q", ty.P(ty.N(lemg))), f("R", ty.N(lrn)), f("S", ty.P(ty.N(lrn)))),
+			ty.St(f("V", ty.N(leqv)), f("W", ty.N(leqp)), f("P", ty.P(ty.N(leqv))), f("L", ty.Sl(ty.N(leqp))), f("M", ty.M(b("string"), ty.N(leqv)))),
+			ty.P(ty.St(f("V", ty.N(leqv)), f("N", ty.N(32)), f("U", ty.N(31)))), ty.N(leqv), ty.N(leqp),
 			ty.N(lg), ty.N(lemg), ty.P(ty.N(lemg)), ty.Sl(ty.N(lemg)), ty.N(lrn), ty.Sl(ty.N(lrn)),
 			ty.N(ltg), ty.P(ty.N(ltg)), ty.Sl(ty.N(ltg)), ty.M(b("int"), ty.N(ltg)), ty.M(ty.N(lks), b("string")), ty.M(ty.N(lks), ty.N(mark)),
 			ty.M(ty.N(b3), b("string")), ty.M(ty.N(b3), b("int64")), ty.St(f("K", ty.M(ty.N(b3), b("bool")))),
@@ -376,6 +384,9 @@ func main() {
 					src = d.Under.Go(env, e.name)
 				}
 				fmt.Fprintf(&sb, "type %s %s\n%s", d.Name, src, methodSrc[d.Pkg+"."+d.Name])
+				if d.Methods != "" {
+					sb.WriteString("\n" + gen.MethodSrc(d))
+				}
 			}
 		}
 		write(filepath.Join(*out, filepath.FromSlash(e.dir), "x.go"), sb.String())
@@ -389,6 +400,9 @@ func main() {
 				p.WriteString(d.Src + "\n")
 			} else {
 				fmt.Fprintf(&p, "type %s %s\n", d.Name, d.Under.Go(env, ""))
+			}
+			if d.Methods != "" { // own Equal / Compare / Hash / DeepCopy methods (coarser than the fields): gostring must not consult them
+				p.WriteString("\n" + gen.MethodSrc(d))
 			}
 		}
 	}
@@ -409,6 +423,9 @@ func main() {
 				src = d.Under.Go(env, gs.LocalPkg)
 			}
 			fmt.Fprintf(qs[0], "\ntype %s %s\n%s", d.Name, src, methodSrc[d.Pkg+"."+d.Name])
+			if d.Methods != "" {
+				qs[0].WriteString("\n" + gen.MethodSrc(d))
+			}
 		}
 	}
 	pkgOf := func(t *ty.Ty) int {
